@@ -1,7 +1,9 @@
 ---------------------------- MODULE DispatchTrace ----------------------------
 (* Trace validation for C17: every line of the ndjson trace recorded from the real xtl      *)
 (* dispatchers and visitors must be a step of Dispatch (L1) with the logged arguments, and  *)
-(* the logged outcome and the probed dispatch table must be the spec's.                     *)
+(* the logged outcome and the probed dispatch tables must be the spec's.                    *)
+(* An event whose op is Crash or Desync (the driver died, exceeded its CPU limit, or could  *)
+(* not follow the script) matches no action: the trace is rejected there.                   *)
 EXTENDS Dispatch, IOUtils
 
 VARIABLE l     \* next line of the trace to be explained
@@ -9,34 +11,50 @@ VARIABLE l     \* next line of the trace to be explained
 JsonTrace == ndJsonDeserialize(IOEnv.TRACE)
 ExplainAt == atoi(IOEnv.EXPLAIN)
 
-NoCfg == [kind |-> "none", ar |-> 1, nx |-> 0, k |-> 1]
+NoCfg == [kind |-> "none", ar |-> 1, nx |-> 0, k |-> 1, fl |-> "exc"]
 
 TInit ==
     /\ l = 1
     /\ cfg = NoCfg
     /\ reg = ZeroReg(1, 1)
+    /\ reg2 = ZeroReg(1, 1)
+    /\ has2 = FALSE
+    /\ seen = {}
     /\ hist = <<>>
     /\ last = [op |-> "Init", a |-> NoArg, res |-> Void]
-    /\ pre = [reg |-> ZeroReg(1, 1)]
+    /\ pre = [reg |-> ZeroReg(1, 1), reg2 |-> ZeroReg(1, 1), has2 |-> FALSE]
 
-(* a new execution: a fresh dispatcher of the given kind over fresh class indices *)
+Has(a, f) == f \in DOMAIN a
+SlotOf(a) == IF Has(a, "d") THEN a.d ELSE 1
+CvOf(a) == IF Has(a, "cv") THEN a.cv ELSE "same"
+
+(* a new execution: fresh dispatcher object(s) of the given kind over fresh class indices *)
 TReset(e) ==
     /\ e.a.kind \in FunctorKinds \cup {"none"}
-    /\ cfg' = [kind |-> e.a.kind, ar |-> e.a.ar, nx |-> e.a.nx, k |-> e.a.k]
-    /\ reg' = ZeroReg(e.a.ar, e.a.k)
+    /\ LET c == [kind |-> e.a.kind, ar |-> e.a.ar, nx |-> e.a.nx, k |-> e.a.k,
+                 fl |-> IF Has(e.a, "fl") THEN e.a.fl ELSE "exc"] IN
+       /\ c.fl \in {"exc", "noexc"} /\ c.ar \in 1..3 /\ c.k \in 1..5 /\ CfgOK(c)
+       /\ cfg' = c
+       /\ reg' = ZeroReg(c.ar, c.k)
+       /\ reg2' = ZeroReg(c.ar, c.k)
+    /\ has2' = FALSE
+    /\ seen' = {}
     /\ hist' = <<>>
-    /\ pre' = [reg |-> reg]
+    /\ pre' = [reg |-> reg, reg2 |-> reg2, has2 |-> has2]
     /\ last' = [op |-> "Reset", a |-> e.a, res |-> Void]
 
 Apply(e) == LET a == e.a IN
     \/ e.op = "Reset"     /\ TReset(e)
-    \/ e.op = "Insert"    /\ Insert(a.t, a.h)
-    \/ e.op = "Erase"     /\ Erase(a.t)
-    \/ e.op = "Dispatch"  /\ Dispatch(a.os, a.xs)
-    \/ e.op = "Static"    /\ Static(a.lhs, a.rhs, a.cst, a.os[1], a.os[2])
-    \/ e.op = "StaticSym" /\ a.lhs = a.rhs /\ StaticSym(a.lhs, a.cst, a.os[1], a.os[2])
-    \/ e.op = "Accept"    /\ Accept(a.v, a.vis, a.o)
-    \/ e.op = "Cyclic"    /\ Cyclic(a.cst, a.o)
+    \/ e.op = "Insert"    /\ Insert(SlotOf(a), a.t, a.h)
+    \/ e.op = "Erase"     /\ Erase(SlotOf(a), a.t)
+    \/ e.op = "Dispatch"  /\ Dispatch(SlotOf(a), a.os, a.xs)
+    \/ e.op = "Clone"     /\ Clone(a.how)
+    \/ e.op = "Take"      /\ Take(a.how)
+    \/ e.op = "Drop2"     /\ Drop2
+    \/ e.op = "Static"    /\ Static(a.lhs, a.rhs, a.cst, CvOf(a), a.os[1], a.os[2])
+    \/ e.op = "StaticSym" /\ a.lhs = a.rhs /\ StaticSym(a.lhs, a.cst, CvOf(a), a.os[1], a.os[2])
+    \/ e.op = "Accept"    /\ Accept(a.v, a.m, a.o)
+    \/ e.op = "Cyclic"    /\ Cyclic(a.cst, a.rv, a.o)
 
 TNext ==
     /\ l <= Len(JsonTrace)
